@@ -399,9 +399,43 @@ pub fn run_check(id: &str, tier: &str, seed: u64) -> i32 {
             (Ok(bin), true) => Some(std::thread::spawn(move || crate::e2e_checks::late_reply_sessions(&bin, seed, if thorough { 24 } else { 6 }))),
             _ => None,
         };
+        // C03 / C04 / C10: what reaches lightningd's pay through the real rpc.rs
+        let params_handle = match (std::env::var("VMON_PLUGIN_BIN"), id == "C03" || id == "C04" || id == "C10") {
+            (Ok(bin), true) => Some(std::thread::spawn(move || crate::e2e_checks::pay_params_sessions(&bin, seed, if thorough { 48 } else { 12 }))),
+            _ => None,
+        };
         let mut agg = campaign(id, rules, seed, thorough, profiles, runs, if thorough { 1500 } else { 100 });
         let mut extra = json!({});
         let mut e2e_exit = 0;
+        if let Some(h) = params_handle {
+            let r = match h.join() {
+                Ok(r) => r,
+                Err(_) => crate::e2e::E2eResult { coverage: json!("e2e thread panicked"), violations: BTreeMap::new(), evals: BTreeMap::new(), inconclusive: vec!["pay parameter sessions panicked".into()] },
+            };
+            extra["e2e_pay_parameter_sessions(real rpc.rs)"] = r.coverage;
+            extra["e2e_rule_evaluations"] = json!(r.evals);
+            let want: &[&str] = match id {
+                "C03" => &["R03"],
+                "C04" => &["R04"],
+                _ => &["R03c"],
+            };
+            for (sig, (n, w)) in r.violations.iter() {
+                if !want.iter().any(|p| sig.starts_with(p)) {
+                    *agg.cross.entry(format!("e2e:{sig}")).or_insert(0) += n;
+                    continue;
+                }
+                let dir = format!("{}/replays", out_dir());
+                let _ = std::fs::create_dir_all(&dir);
+                let path = format!("{dir}/{id}-e2e-{}.json", sig.replace('|', "_").chars().take(80).collect::<String>());
+                let _ = std::fs::write(&path, serde_json::to_string_pretty(&json!({"property": id, "engine": "e2e-pay-params", "signature": sig, "witness": w, "count": n, "seed": seed})).unwrap());
+                println!("VIOLATION property={id} replay={path}");
+                eprintln!("  {sig}: {}", w.chars().take(600).collect::<String>());
+                e2e_exit = 1;
+            }
+            for i in r.inconclusive {
+                *agg.inconclusive.entry(format!("e2e: {i}")).or_insert(0) += 1;
+            }
+        }
         if let Some(h) = late_handle {
             let r = match h.join() {
                 Ok(r) => r,
